@@ -183,6 +183,26 @@ pub fn select_call(q: &mut SelectStatement, c: &J) {
         "lock_with_behavior" => { q.lock_with_behavior(lock_type(&a[1]), lock_behavior(&a[2])); }
         "lock_with_tables" => { q.lock_with_tables(lock_type(&a[1]), a[2].as_array().unwrap().iter().map(tableref).collect::<Vec<_>>()); }
         "with_cte" => { q.with_cte(with_clause(&a[1])); }
+        "table_sample" => {
+            use sea_query::extension::postgres::{PostgresSelectStatementExt, SampleMethod};
+            let m = if a[1].as_str() == Some("SYSTEM") { SampleMethod::SYSTEM } else { SampleMethod::BERNOULLI };
+            let rep = if a.len() > 3 && !a[3].is_null() { Some(f64::from_bits(a[3].as_u64().unwrap())) } else { None };
+            q.table_sample(m, f64::from_bits(a[2].as_u64().unwrap()), rep);
+        }
+        "index_hint" => {
+            use sea_query::extension::mysql::{IndexHintScope, MySqlSelectStatementExt};
+            let scope = match a[3].as_str().unwrap() {
+                "Join" => IndexHintScope::Join,
+                "OrderBy" => IndexHintScope::OrderBy,
+                "GroupBy" => IndexHintScope::GroupBy,
+                _ => IndexHintScope::All,
+            };
+            match a[1].as_str().unwrap() {
+                "use" => { q.use_index(iden(&a[2]), scope); }
+                "force" => { q.force_index(iden(&a[2]), scope); }
+                _ => { q.ignore_index(iden(&a[2]), scope); }
+            }
+        }
         "clear_selects" => { q.clear_selects(); }
         "from_clear" => { q.from_clear(); }
         "reset_limit" => { q.reset_limit(); }
@@ -437,6 +457,63 @@ fn render<S: QueryStatementWriter + QueryStatementBuilder>(s: &S, req: &J) -> J 
     }
 }
 
+fn sql3(q: &SelectStatement) -> Vec<String> {
+    vec![q.to_string(MysqlQueryBuilder), q.to_string(PostgresQueryBuilder), q.to_string(SqliteQueryBuilder)]
+}
+
+/// C15 on SelectStatement: take / clone / clear operations checked natively against independently rebuilt statements
+fn c15_select(req: &J) -> J {
+    let base = &req["base"];
+    let opn = req["c15"].as_str().unwrap();
+    let mut q = select(base);
+    let pre = select(base);
+    let mut fails: Vec<String> = vec![];
+    match opn {
+        "take" => {
+            let t = q.take();
+            if t != pre { fails.push("taken != statement before take".into()); }
+            if sql3(&t) != sql3(&pre) { fails.push("taken statement renders differently".into()); }
+            if q != SelectStatement::new() { fails.push("left-behind statement != SelectStatement::new()".into()); }
+            if sql3(&q) != sql3(&SelectStatement::new()) { fails.push("left-behind statement renders differently from a new one".into()); }
+        }
+        "clone_then_source" | "clone_then_copy" => {
+            let mut c = q.clone();
+            if c != pre { fails.push("clone != source".into()); }
+            if sql3(&c) != sql3(&pre) { fails.push("clone renders differently".into()); }
+            let mut with_extra = select(base);
+            select_call(&mut with_extra, &req["extra"]);
+            if opn == "clone_then_source" {
+                select_call(&mut q, &req["extra"]);
+                if c != pre || sql3(&c) != sql3(&pre) { fails.push("a later change to the source shows in the clone".into()); }
+                if q != with_extra { fails.push("source after the change differs from the expected statement".into()); }
+            } else {
+                select_call(&mut c, &req["extra"]);
+                if q != pre || sql3(&q) != sql3(&pre) { fails.push("a later change to the clone shows in the source".into()); }
+                if c != with_extra { fails.push("clone after the change differs from the expected statement".into()); }
+            }
+        }
+        clear => {
+            select_call(&mut q, &json!([clear]));
+            let expected = select(&req["expected"]);
+            if q != expected { fails.push(format!("{clear} did not remove exactly its clause")); }
+            if sql3(&q) != sql3(&expected) { fails.push(format!("{clear}: renders differently from the statement without that clause")); }
+        }
+    }
+    json!({"holds": fails.is_empty(), "fails": fails})
+}
+
+fn c15_window(req: &J) -> J {
+    let mut w = window(&req["base"]);
+    let pre = window(&req["base"]);
+    let mut fails: Vec<String> = vec![];
+    let t = w.take();
+    if t != pre { fails.push("taken window != window before take".into()); }
+    if w != WindowStatement::new() { fails.push("left-behind window != WindowStatement::new()".into()); }
+    let c = pre.clone();
+    if c != pre { fails.push("window clone != source".into()); }
+    json!({"holds": fails.is_empty(), "fails": fails})
+}
+
 pub fn handle(op: &str, req: &J) -> J {
     match op {
         "render" => {
@@ -453,6 +530,8 @@ pub fn handle(op: &str, req: &J) -> J {
             r["log"] = J::Array(LOG.with(|l| l.borrow().clone()));
             r
         }
+        "c15_select" => c15_select(req),
+        "c15_window" => c15_window(req),
         "build_only" => {
             // run the builder calls without rendering (C10: outcomes of values()/select_from())
             LOG.with(|l| l.borrow_mut().clear());
